@@ -101,7 +101,16 @@ pub fn run(out: &mut Out, seed: u64, tier: &str) {
                 }
                 _ => {
                     // optimise: only coordinates may change
+                    let conn_before = canon_conn(&connectivity(w.molecule()));
+                    let atoms_before: Vec<String> = atoms(w.molecule()).iter().map(|a| a.symbol.clone()).collect();
                     if m.n() <= 8 && catch(|| w.optimise()).is_some() {
+                        // [C04] frame: optimisation through the scripting interface changes coordinates only
+                        let conn_after = canon_conn(&connectivity(w.molecule()));
+                        let atoms_after: Vec<String> = atoms(w.molecule()).iter().map(|a| a.symbol.clone()).collect();
+                        if conn_before != conn_after || atoms_before != atoms_after {
+                            out.oracle_fail(&format!("[C04] optimise() through the scripting interface changed more than the coordinates: connectivity {} -> {}", conn_before, conn_after),
+                                &format!("{}\ncalls: {} ; O", m.xyz_text(), ops.join(" ; ")));
+                        }
                         let xs: Vec<f64> = w.molecule().coordinates.iter().flat_map(|p| [p.x, p.y, p.z]).collect();
                         if xs.iter().all(|v| v.is_finite()) { ops.push(format!("O {}", hexs(&xs))); outs.push(state(&w)); }
                         else { break; }
